@@ -103,7 +103,7 @@ def copy_tree(repo, dst):
     shutil.copytree(repo, dst, ignore=ignore, symlinks=True)
 
 
-def _prune_cache(keep=8):
+def _prune_cache(keep=40):
     root = os.path.join(WORK, "facts")
     if not os.path.isdir(root):
         return
